@@ -74,6 +74,40 @@ func c06Squash(s string) string { return strings.Join(strings.Fields(s), "") }
 
 func c06CoqStr(s string) string { return `"` + strings.ReplaceAll(s, `"`, `""`) + `"%string` }
 
+func c06Unparen(e ast.Expr) ast.Expr {
+	for {
+		p, ok := e.(*ast.ParenExpr)
+		if !ok {
+			return e
+		}
+		e = p.X
+	}
+}
+
+// "(negb X)" with X balanced -> X
+func c06StripNegb(c string) (string, bool) {
+	if !strings.HasPrefix(c, "(negb ") || !strings.HasSuffix(c, ")") {
+		return "", false
+	}
+	inner := c[len("(negb ") : len(c)-1]
+	depth := 0
+	for _, ch := range inner {
+		switch ch {
+		case '(':
+			depth++
+		case ')':
+			depth--
+			if depth < 0 {
+				return "", false
+			}
+		}
+	}
+	if depth != 0 {
+		return "", false
+	}
+	return inner, true
+}
+
 func c06IsNil(e ast.Expr) bool {
 	id, ok := e.(*ast.Ident)
 	return ok && id.Name == "nil"
@@ -391,12 +425,19 @@ func (t *c06Tr) cond(e ast.Expr) (string, error) {
 				t.usesUnk = true
 				return neg("(unk " + c06CoqStr("== "+t.src(other)) + " " + a + ")"), err
 			}
-			// node keys
-			a, err := t.expr(x.X)
+			// node keys; equality is symmetric: the canonical order puts a plain variable before a projection
+			// (`t.nodeKey == key` is translated like `key == t.nodeKey`)
+			kx, ky := x.X, x.Y
+			if _, ok := c06Unparen(kx).(*ast.Ident); !ok {
+				if _, ok := c06Unparen(ky).(*ast.Ident); ok {
+					kx, ky = ky, kx
+				}
+			}
+			a, err := t.expr(kx)
 			if err != nil {
 				return "", err
 			}
-			b, err := t.expr(x.Y)
+			b, err := t.expr(ky)
 			if err != nil {
 				return "", err
 			}
@@ -663,6 +704,10 @@ func (f *c06Fn) stmts(l []ast.Stmt, ind string, k func(ind string) (string, erro
 		if err != nil {
 			return "", err
 		}
+		// `if !c { A } else { B }` is `if c { B } else { A }` (also `if a != b { continue }` before the rest of a loop body)
+		if inner, ok := c06StripNegb(c); ok {
+			c, th, el = inner, el, th
+		}
 		return "if " + c + " then\n" + ind + "  " + th + "\n" + ind + "else\n" + ind + "  " + el, nil
 	case *ast.RangeStmt:
 		if x.Tok != token.DEFINE || x.Value == nil || f.src(x.Key) != "_" {
@@ -841,6 +886,7 @@ func c06ExtractHit(repo string) (string, string, error) {
 	if fn == nil || fn.Body == nil {
 		return "", "", fmt.Errorf("func getHitKey not found")
 	}
+	c06NormalizeFunc(f, fn)
 	names, tys := c06ParamNames(fn)
 	if len(names) != 2 || tys[0] != "[]*task" || tys[1] != "[]string" {
 		return "", "", fmt.Errorf("getHitKey: parameters (%s) of types (%s)", strings.Join(names, ", "), strings.Join(tys, ", "))
@@ -891,6 +937,7 @@ func c06ExtractResolve(repo string) (string, string, error) {
 	if fn == nil || fn.Body == nil {
 		return "", "", fmt.Errorf("method (*runner).resolveInterruptCompletedTasks not found")
 	}
+	c06NormalizeFunc(f, fn)
 	const w = "resolveInterruptCompletedTasks"
 	names, tys := c06ParamNames(fn)
 	want := []string{"subGraphInterrupts", "interruptRerunNodes", "interruptAfterNodes", "completedTasks"}
@@ -1484,6 +1531,7 @@ func c06ExtractLoop(repo string) (string, string, error) {
 	if fn == nil || fn.Body == nil {
 		return "", "", fmt.Errorf("method (*runner).run not found")
 	}
+	c06NormalizeFunc(f, fn)
 	recv := fn.Recv.List[0].Names[0].Name
 	if recv != "r" {
 		return "", "", fmt.Errorf("(*runner).run: receiver %s", recv)
@@ -2355,6 +2403,7 @@ func c06Handler(fr *ast.File, structs map[string][]string, method, gname string)
 	if fn == nil || fn.Body == nil {
 		return "", fmt.Errorf("method (*runner).%s not found", method)
 	}
+	c06NormalizeFunc(fr, fn)
 	recv := fn.Recv.List[0].Names[0].Name
 	names, tys := c06ParamNames(fn)
 	if fn.Type.Results == nil || fn.Type.Results.NumFields() != 1 || c06Squash(types.ExprString(fn.Type.Results.List[0].Type)) != "error" {
